@@ -256,11 +256,76 @@ def ood_missing_case(item):
     return r
 
 
+def lockhold_case(item):
+    """Another process holds the write lock of the database for several seconds (as a query over a large project does): commands
+    started meanwhile wait for it, they do not give up."""
+    _, hold, seed = item
+    import threading
+    pj = scen.Project(SAME_FILES, 'c16h')
+    anoms = []
+    obs = dict(rounds=1, invocations=0, failed_invocations=0, lock_holder_rounds=1)
+    sets = {}
+    try:
+        r, _ = pj.run(['redo-ifchange', 'top'], verif_log=False)
+        if r.rc != 0:
+            return dict(verdict='inconclusive', why='could not initialise the project', sample=dict(item=list(item)))
+        db = os.path.join(pj.top, '.redo', 'db.sqlite3')
+        held = threading.Event()
+        problems = []
+
+        def holder():
+            try:
+                con = sqlite3.connect(db, timeout=30, isolation_level=None)
+                con.execute('BEGIN IMMEDIATE')
+                held.set()
+                time.sleep(hold)
+                con.execute('ROLLBACK')
+                con.close()
+            except sqlite3.Error as e:
+                problems.append(str(e))
+                held.set()
+        th = threading.Thread(target=holder)
+        th.start()
+        held.wait(20)
+        if problems:
+            th.join()
+            return dict(verdict='inconclusive', why='the lock holder could not start: %s' % problems[0], sample=dict(item=list(item)))
+        t0 = time.time()
+        cmds = [dict(argv=['redo-ifchange', 'top']), dict(argv=['redo-targets']), dict(argv=['redo-ood']), dict(argv=['redo', 'mid']), dict(argv=['redo-sources'])]
+        res = pj.run_many(cmds, timeout=120)
+        th.join()
+        obs['invocations'] = len(cmds)
+        obs['seconds_the_write_lock_was_held'] = hold
+        for c, r in zip(cmds, res):
+            name = c['argv'][0]
+            if r.status == 'timeout':
+                return dict(verdict='inconclusive', why='watchdog without stuck witness', sample=dict(item=list(item)))
+            if r.status == 'exit' and r.rc != 0:
+                obs['failed_invocations'] += 1
+                text = (r.err + r.out)
+                m = ERR_RE.search(text)
+                ec = scen.classify_error(text) or ('other:' + (m.group(0).lower() if m else 'rc=%s' % r.rc))
+                anoms.append(dict(key='spurious-failure:write-lock-held-by-another-process:%s:%s' % (name if name.startswith('redo-') else 'redo', ec),
+                                  what='%s exited %s after %.1f s while another process held the write lock for %s s: %s' % (c['argv'], r.rc, time.time() - t0, hold, text[-200:].replace('\n', ' | '))))
+            sets.setdefault('commands', set()).add(name)
+    finally:
+        pj.close()
+    r = dict(verdict='violated' if anoms else 'held', nontrivial=True, shape=common.shash(list(item)),
+             sample=dict(kind='write-lock-held', hold=hold), obs=obs, sets={k: sorted(v) for k, v in sets.items()})
+    if anoms:
+        seen = set()
+        r['violations'] = [a for a in anoms if not (a['key'] in seen or seen.add(a['key']))]
+        r['replay'] = dict(kind='c16', item=list(item))
+    return r
+
+
 def dispatch(item):
     if item[0] == 'same':
         return same_target_case(tuple(item))
     if item[0] == 'oodmiss':
         return ood_missing_case(tuple(item))
+    if item[0] == 'lockhold':
+        return lockhold_case(tuple(item))
     return case(tuple(item))
 
 
@@ -269,7 +334,7 @@ RULE = ('rounds of n in {2,4,8,16} invocations released within a few millisecond
         'project and on a project without .redo (first-creation race); with delay hooks inside start-up (between the existence test and '
         'connect, between the schema read and the run-id insert). All scripts succeed by construction, so every invocation must exit 0; '
         'afterwards integrity_check = ok, every target of a successful invocation has its Files row, its declared Deps edges and its file. '
-        'Same-target rounds: 2-5 invocations (redo-ifchange / redo / redo -j3, plus queries) all ask for one chain top -> mid -> checksummed st -> src after a change below the checksummed target (checksum kept, changed, no change, or the checksummed target and a leaf removed by hand, with four more queries): they meet each other at the locks and on the out-of-band path; every one exits 0, afterwards the chain holds the new content, redo-ood works, no temporary output is left (what redo-ood lists is counted, not judged: run ids of concurrent commands can make a parent look older than a dependency built by a later-started run). Query-only rounds: 4-8 redo-targets / redo-sources and 1-3 redo-ood released together on a built project whose generated leaves were removed by hand (redo-ood meets targets that have gone missing while others allocate run ids): every query exits 0. Every round is non-trivial; distinct = parameter tuple (incl. seed).')
+        'Same-target rounds: 2-5 invocations (redo-ifchange / redo / redo -j3, plus queries) all ask for one chain top -> mid -> checksummed st -> src after a change below the checksummed target (checksum kept, changed, no change, or the checksummed target and a leaf removed by hand, with four more queries): they meet each other at the locks and on the out-of-band path; every one exits 0, afterwards the chain holds the new content, redo-ood works, no temporary output is left (what redo-ood lists is counted, not judged: run ids of concurrent commands can make a parent look older than a dependency built by a later-started run). Lock-holder rounds: another process (the harness, through SQLite) holds the write lock of the database for 3-4.5 s; five commands started meanwhile wait and exit 0. Query-only rounds: 4-8 redo-targets / redo-sources and 1-3 redo-ood released together on a built project whose generated leaves were removed by hand (redo-ood meets targets that have gone missing while others allocate run ids): every query exits 0. Every round is non-trivial; distinct = parameter tuple (incl. seed).')
 ASSUME = ['only targets known to redo are queried with redo-log', 'script-attributable failures are impossible by construction']
 
 
@@ -288,6 +353,8 @@ def main(tier):
         for ninv in (2, 3, 5):
             for change in ('new-checksum', 'same-checksum', 'none', 'removed'):
                 items.append(('same', ninv, change, rnd.choice([0, 2]), rnd.randrange(10 ** 6)))
+    for rep in range(2 if quick else 12):
+        items.append(('lockhold', rnd.choice([3.0, 4.5]), rep))
     for rep in range(10 if quick else 120):
         items.append(('oodmiss', rnd.choice([4, 6, 8]), rnd.choice([1, 2, 3]), rnd.randrange(10 ** 6)))
     rnd.shuffle(items)
